@@ -4,7 +4,7 @@
 OUT=${1:-$(mktemp -d /var/tmp/vp_baseline.XXXXXX)}
 mkdir -p "$OUT"
 unset JINNS_VERIF
-cd /repo && /venv/bin/python -m pytest -ra -q -p no:cacheprovider --timeout=900 --continue-on-collection-errors --junitxml="$OUT/junit.xml" > "$OUT/pytest.log" 2>&1
+cd ${REPO_DIR:-/repo} && PYTHONPATH=${REPO_DIR:-/repo} /venv/bin/python -m pytest -ra -q -p no:cacheprovider --timeout=900 --continue-on-collection-errors --junitxml="$OUT/junit.xml" > "$OUT/pytest.log" 2>&1
 /venv/bin/python - "$OUT/junit.xml" <<'PY'
 import json, sys, xml.etree.ElementTree as ET
 base = set(json.load(open('/root/.vp/BASELINE.json'))['stable_pass'])
